@@ -263,3 +263,15 @@ func AsRTUErrorPacket(data []byte) error {
 	}
 	return nil // probably start of valid packet
 }
+
+// AsRTUErrorPacketWithCRC checks packet CRC and converts raw packet bytes to Modbus RTU error response if possible.
+// Bytes that have error packet shape but do not match their CRC are not an error packet.
+func AsRTUErrorPacketWithCRC(data []byte) error {
+	if len(data) != 5 {
+		return nil
+	}
+	if binary.LittleEndian.Uint16(data[3:5]) != CRC16(data[0:3]) {
+		return nil // corrupted or not an error packet at all. response parser will decide when all bytes are received
+	}
+	return AsRTUErrorPacket(data)
+}
